@@ -3,7 +3,7 @@
 From Coq Require Import List ZArith NArith Bool Lia.
 From Coq.Strings Require Import Byte.
 From RimeV Require Import Base.Bytes Eng.Keys Eng.Cand Eng.Segm Eng.Ctx Eng.Engine Eng.Procs Eng.Api Eng.Oracle
-     Eng.Spec Eng.WfView Eng.Utf8Proofs Eng.WfProofs Eng.InvProofs Gen.Keymaps Gen.EngFacts.
+     Eng.Trans Eng.Spec Eng.WfView Eng.Utf8Proofs Eng.WfProofs Eng.InvProofs Eng.PunctProofs Gen.Keymaps Gen.EngFacts.
 Import ListNotations.
 
 (** Source fact (gen/eng_facts.py, re-read from src/rime/context.cc on every
@@ -119,3 +119,28 @@ Theorem C02_example :
           (snd (run (synth_cfg false true) oracle_translate c02_example_ops)) = true.
 Proof. repeat split; vm_compute; reflexivity. Qed.
 Print Assumptions C02_example.
+
+(** ---- round 3: the punctuator ---- [C02_wf_reported] quantifies over every configuration,
+    so it covers every processor / segmentor chain of the model (punctuator with AlternatePunct
+    writing Segment.selected_index directly, PairPunct, the digit-separator paths;
+    punct_segmentor) and every menu, merged from several translators or not.  Non-vacuity for
+    the punctuator schemas of the correspondence: their merged menus (punct_translator first,
+    then the oracle translator) meet the length hypothesis. *)
+Theorem C02_wf_reported_synth_punct :
+  forall fluid dlog ops,
+    forallb wf_obsb (snd (run (synth_punct_cfg fluid dlog) (synth_translate (synth_punct_cfg fluid dlog)) ops)) = true.
+Proof. exact wf_reported_synth_punct. Qed.
+Print Assumptions C02_wf_reported_synth_punct.
+
+(** a concrete history through all four definition shapes: alternate a list key twice, a pair
+    key twice (oddness), a commit key, the digit-separator path and a full_shape toggle *)
+Definition c02_punct_ops : list op :=
+  [OpKey 46 0; OpKey 46 0; OpKey 46 0; OpKey 34 0; OpKey 34 0; OpKey 51 0; OpKey 44 0; OpKey 44 0;
+   OpSetOption opt_full_shape true; OpKey 32 0; OpKey 97 0; OpKey 59 0; OpKey 59 0; OpGetCommit].
+Theorem C02_punct_example :
+  let obs := snd (run (synth_punct_cfg false true) (synth_translate (synth_punct_cfg false true)) c02_punct_ops) in
+  forallb wf_obsb obs = true /\
+  existsb (fun o => match o with Obs _ v => match v_sel v with Some 2%N => true | _ => false end | _ => false end) obs = true /\
+  existsb (fun o => match o with Obs (RCommit (Some _)) _ => true | _ => false end) obs = true.
+Proof. cbv zeta. split; [|split]; vm_compute; reflexivity. Qed.
+Print Assumptions C02_punct_example.
